@@ -17,7 +17,7 @@ for d in seeded/*/; do
       [ -n "$want" ] && [ "$p" != "$want" ] && continue
       ev=$(mktemp -d /tmp/govc-selftest-ev-XXXXXX)
       if [ "$p" = "C20" ]; then
-        REPO=$wt VERIF_OUT=$ev tla/check_c20.sh quick >$ev/out.txt 2>&1; rc=$?
+        C20_MODELS_DIR=$wt/formal-models C20_EVIDENCE=$ev/C20.json C20_REPLAYS=$ev/replays tla/check_c20.sh quick >$ev/out.txt 2>&1; rc=$?
       else
         bin/govc check -prop $p -tier quick -repo $wt -verif $ev -known /verif/known_findings.txt >$ev/out.txt 2>&1; rc=$?
       fi
